@@ -566,7 +566,7 @@ func main() {
 	flag.StringVar(&tags, "tags", "", "build tags")
 	flag.StringVar(&outPath, "o", "ssa.json", "output")
 	flag.StringVar(&dir, "dir", "/repo", "module dir")
-	flag.StringVar(&bodies, "bodies", "github.com/onflow/crypto,golang.org/x/crypto/chacha20,golang.org/x/crypto/internal/alias,encoding/binary,internal/byteorder,math/bits,bytes,strings,slices,errors,internal/bytealg,internal/stringslite", "package path prefixes whose bodies are dumped")
+	flag.StringVar(&bodies, "bodies", "github.com/onflow/crypto,golang.org/x/crypto/chacha20,golang.org/x/crypto/internal/alias,encoding/binary,internal/byteorder,math/bits,bytes,strings,slices,errors,internal/bytealg,internal/stringslite,golang.org/x/crypto/cryptobyte", "package path prefixes whose bodies are dumped")
 	flag.BoolVar(&cgo, "cgo", true, "CGO_ENABLED")
 	flag.Parse()
 	bodyPfx = strings.Split(bodies, ",")
